@@ -95,10 +95,12 @@ SigVal(desc) == GSum([j \in 1..Len(desc) |-> TermVal(desc[j])])
 (* subgroup (for keys: possibly the identity, which KeyValidate rejects).  *)
 (***************************************************************************)
 BadKeyClasses == {"short", "long_prefix", "long_suffix", "cflag0", "inf_badflags", "x_ge_p", "offcurve",
-                  "identity", "nonsubgroup", "nonsubgroup_plus", "nonsubgroup_minus"}
+                  "identity", "nonsubgroup", "nonsubgroup_plus", "nonsubgroup_minus", "wide_view"}
 \* nonsubgroup_plus / _minus: sk G1 + T and sk G1 - T for one cofactor-torsion point T (their sum is in the subgroup)
 BadSigClasses == {"short", "long_prefix", "long_suffix", "cflag0", "inf_badflags", "x_ge_p", "offcurve",
-                  "nonsubgroup", "z2_flagbits", "z2_ge_p", "bitflip"}
+                  "nonsubgroup", "z2_flagbits", "z2_ge_p", "bitflip", "wide_view"}
+\* wide_view: a buffer of twice the length (zero bytes, then the valid encoding) presented as a memoryview of
+\* 16-bit items, so that len() is 48 / 96: not the canonical byte string, whatever the type gate thinks
 
 KeyOK(pk) == pk.cls = "valid" /\ KeyOf(pk.key) # ZeroForm          \* KeyValidate
 SigOK(sg) == sg.cls = "valid"                                       \* decodes, in the subgroup (identity allowed)
